@@ -30,6 +30,8 @@ def longname(nl, tl, tiers):
         fp_map={"append": ["cap_append"]}, reach=["short_name" if nl < 100 else "long_name"] + ([("short_target" if tl < 100 else "long_target")] if tl else []),
         functions=["write_tar_header, write_header, write_ext_header (lib/tar/src/write_header.c)"],
         bound="name of exactly %d symbolic non-NUL bytes%s" % (nl, (", symlink target of exactly %d symbolic non-NUL bytes" % tl) if tl else ""))
+OBLIGATIONS.append(dict(longname(100, 0, ["quick", "thorough"]), name="tar_unsupported_entry_leaves_no_record", defines=dict(NAMELEN=100, TLEN=0, SOCKET=1), reach=["refused"],
+    bound="a socket entry with a name of exactly 100 symbolic bytes"))
 OBLIGATIONS += [longname(99, 0, ["quick", "thorough"]), longname(100, 0, ["quick", "thorough"]), longname(101, 0, ["thorough"]), longname(3, 99, ["thorough"]), longname(3, 100, ["quick", "thorough"])]
 
 OBLIGATIONS.append(dict(name="tar_iterator_record_accounting", harness="harness/C04_iterator.c", sources=[], included_sources=["lib/tar/src/iterator.c"],
